@@ -341,6 +341,7 @@ func TestC06(t *testing.T) {
 	st := vstat.New("C06")
 	defer finish(t, st)
 
+	t.Run("reproposal", func(t *testing.T) { c06ReproposalAll(t, st) })
 	t.Run("fixpoint", func(t *testing.T) {
 		if replaying() {
 			var rp c06Replay
